@@ -97,3 +97,55 @@ def run(run, P):
                               "%s() says byte '%s' is copied unescaped, but %s() also writes '%s' between segments (or as the escape introducer): "
                               "the segment lists [\"a%sb\"] and [\"a\",\"b\"] reconstruct to the same string, so the lookup key is not injective"
                               % (pred, chr(ch), recon, chr(ch), chr(ch)))
+
+
+def run_hexcase(run, P, units=('coap_uri.c',)):
+    """R-URI-CLASS (hex case): the hex digits of a percent-escape are case-insensitive (RFC 3986 2.1, 6.2.2.1).  In the URI unit every
+    equality test of some expression against a hex LETTER ('A'-'F', 'a'-'f') has a twin that tests the same expression against the letter
+    of the other case: per function and per tested expression the upper-case and the lower-case tests of a letter occur equally often
+    (case labels count as tests of the switch expression).  `%2E` recognised where `%2e` is not makes two spellings of one path resolve
+    differently."""
+    import collections
+    run.rule('R-URI-CLASS')
+    n = 0
+    for f in sorted(P.lib_funcs(), key=lambda f: f['name']):
+        if f['unit'] not in units:
+            continue
+        cnt = collections.Counter()
+        locs = {}
+        for b in f['blocks']:
+            exprs = [(ev['e'], ev['loc']) for ev in b['elems']]
+            if b.get('term') and b['term'].get('cond') is not None:
+                exprs.append((b['term']['cond'], b['term'].get('loc')))
+            for e, loc in exprs:
+                for x in walk(e):
+                    if isinstance(x, dict) and x.get('k') == 'bin' and x.get('op') in ('==', '!='):
+                        for a, c in ((x['l'], x['r']), (x['r'], x['l'])):
+                            K = const_int(c)
+                            if K is not None and (65 <= K <= 70 or 97 <= K <= 102) and const_int(a) is None:
+                                cnt[(short(strip(a)), K)] += 1
+                                locs[(short(strip(a)), K)] = loc
+            lab = b.get('label')
+            if lab and lab.get('k') == 'case' and 'hi' not in lab and (65 <= lab['lo'] <= 70 or 97 <= lab['lo'] <= 102):
+                cnt[('switch', lab['lo'])] += 1
+                locs[('switch', lab['lo'])] = f['loc']
+        # every comparison is counted once per CFG occurrence; the extractor may list a condition in more than one block: compare ratios
+        for (xs, K), c in sorted(cnt.items()):
+            if K >= 97:
+                continue
+            n += 1
+            lower = cnt.get((xs, K + 32), 0)
+            ok = lower == c
+            run.instance('R-URI-CLASS', '%s: %s == \'%s\' has its lower-case twin' % (f['name'], xs[:30], chr(K)))
+            run.oblige('R-URI-CLASS', ok, '%s:hexcase:%s' % (f['name'], chr(K)))
+            if not ok:
+                run.violation('R-URI-CLASS', f['name'], locs[(xs, K)], 'hex-letter-one-case-only:%s' % chr(K),
+                              "%s is compared with '%s' %d time(s) but with '%s' %d time(s) in this function: one spelling of a percent-escape is recognised where the other "
+                              "is not, so two spellings of the same URI are treated differently" % (xs[:40], chr(K), c, chr(K + 32), lower), [])
+        for (xs, K), c in sorted(cnt.items()):
+            if K >= 97 and (xs, K - 32) not in cnt:
+                n += 1
+                run.oblige('R-URI-CLASS', False, '%s:hexcase:%s' % (f['name'], chr(K)))
+                run.violation('R-URI-CLASS', f['name'], locs[(xs, K)], 'hex-letter-one-case-only:%s' % chr(K),
+                              "%s is compared with '%s' but never with '%s' in this function" % (xs[:40], chr(K), chr(K - 32)), [])
+    run.require(n >= 1 or run.fixture_mode, 'R-URI-CLASS(hex case): no comparison with a hex letter found in %s' % (units,))
